@@ -14,6 +14,11 @@ Local Open Scope N_scope.
 Definition tagged (n : string) (l : list sval) : sval := SL (SY n :: l).
 Definition unit_sval (v : sval) : list sval := match v with SL l => l | x => [x] end.
 
+Definition res_class (v : sval) : string :=
+  match v with SL (SY c :: _) => c | SY c => c | _ => "malformed" end.
+Definition ok_payload (v : sval) : option sval :=
+  match v with SL [SY c; x] => if String.eqb c "ok" then Some x else None | _ => None end.
+
 (* ---- decoders by Go type name ---- *)
 Definition dec_by_name (n : string) (b : bytes) : option sval :=
   match tag_of_name n with
@@ -178,6 +183,75 @@ Definition hist_obs (p : packet) (ops : list sval) : option sval :=
   Some (SL [SL [SY "results"; SL rs]; SL [SY "consistent"; sbool true]; SL [SY "final"; s_packet pf];
             SL [SY "backing"; sbool true]]).
 
+(* (dec2 <Type> b1 b2): two decodes into the SAME receiver, for the fixed-width units.  Their decoders assign every
+   field (and fail before assigning any), so the second result is that of a fresh receiver; the one exception in the
+   source is StatusVectorChunk.Unmarshal, which appends to SymbolList. *)
+Definition dec2_obs (n : string) (b1 b2 : bytes) : option sval :=
+  let? d1 := dec_by_name n b1 in
+  let? d2 := dec_by_name n b2 in
+  let merged :=
+    if String.eqb n "StatusVectorChunk" then
+      match ok_payload d1, ok_payload d2 with
+      | Some (SL [_; _; _; SL l1]), Some (SL [t2; ty2; ss2; SL l2]) => SL [SY "ok"; SL [t2; ty2; ss2; SL (l1 ++ l2)]]
+      | _, _ => d2
+      end
+    else d2 in
+  Some (SL [SL [SY "first"; SY (res_class d1)]; SL [SY "second"; merged]]).
+
+(* (scribble <Type> b): decode from a private buffer, overwrite the buffer, then look at the value and marshal it.
+   Asked only for the types whose decoder copies everything it keeps (all but RawPacket, ApplicationDefined,
+   SenderReport, ReceiverReport and CompoundPacket, which keep sub-slices of the input): the result is that of a
+   plain decode. *)
+Definition scribble_obs (n : string) (b : bytes) : option sval :=
+  match tag_of_name n with
+  | Some TCompound => None
+  | Some t =>
+      let d := decode_as t b in
+      Some (SL [SL [SY "dec"; sres s_packet d];
+                SL [SY "after"; match d with Ok p => s_packet p | _ => SY "none" end];
+                SL [SY "marshal"; match d with Ok p => sres SB (marshal_packet p) | _ => SY "none" end]])
+  | None => None
+  end.
+
+(* (dhist xdatagram (op...)): a history of operations on the packets a datagram decodes to.
+   marshal = rtcp.Marshal(list), marshalrev = rtcp.Marshal(reversed list), each = every p.Marshal() in order,
+   string/dest/size = the read-only accessors of every packet.  The only state is the ExtendedReport block-header
+   bookkeeping; everything else is a function of the decoded values, whatever memory they share with the input. *)
+Fixpoint list_after_marshal (l : list packet) : list packet :=
+  match l with
+  | [] => []
+  | q :: r => match marshal_packet q with
+              | Ok _ => xr_after_marshal q :: list_after_marshal r
+              | _ => xr_after_marshal q :: r
+              end
+  end.
+Fixpoint dhist_run (ps : list packet) (ops : list sval) : option (list sval * list packet) :=
+  match ops with
+  | [] => Some ([], ps)
+  | SY o :: r =>
+      let? (res, ps') :=
+        (if String.eqb o "marshal" then Some (sres SB (Marshal ps), list_after_marshal ps)
+         else if String.eqb o "marshalrev" then Some (sres SB (Marshal (rev ps)), rev (list_after_marshal (rev ps)))
+         else if String.eqb o "each" then Some (SL (map (fun p => sres SB (marshal_packet p)) ps), map xr_after_marshal ps)
+         else if String.eqb o "size" then Some (sNs (map size_packet ps), ps)
+         else if String.eqb o "dest" then Some (SL (map (fun p => sNs (dest_packet p)) ps), ps)
+         else if String.eqb o "string" then Some (SL [SY "ok"], ps)
+         else None) in
+      let? (rs, pf) := dhist_run ps' r in
+      Some (res :: rs, pf)
+  | _ => None
+  end.
+Definition dhist_obs (b : bytes) (ops : list sval) : option sval :=
+  match Unmarshal b with
+  | Ok ps =>
+      let? (rs, pf) := dhist_run ps ops in
+      Some (SL [SL [SY "dec"; sres (fun l => SL (map s_packet l)) (Ok ps)];
+                SL [SY "results"; SL rs];
+                SL [SY "final"; SL (map s_packet pf)];
+                SL [SY "input"; sbool true]])
+  | r => Some (SL [SL [SY "dec"; sres (fun l => SL (map s_packet l)) r]])
+  end.
+
 Definition run_op (c : sval) : option sval :=
   match c with
   | SL (SY op :: args) =>
@@ -201,7 +275,9 @@ Definition run_op (c : sval) : option sval :=
             Some (match Unmarshal b with Ok _ => SL [SY "ok"] | Err => SL [SY "err"] | Panic => SL [SY "panic"] | Fuel => SL [SY "fuel"] end)
           else if String.eqb op "inbuf" then Some (SL [SY "unchanged"; sbool true])
           else None
-      | [SY n; SB b] => if String.eqb op "dec" || String.eqb op "inflated" then dec_by_name n b else None
+      | [SY n; SB b] =>
+          if String.eqb op "dec" || String.eqb op "inflated" then dec_by_name n b
+          else if String.eqb op "scribble" then scribble_obs n b else None
       | [SY n; SL bs] =>
           if String.eqb op "decs" then
             let? l := omap as_B bs in
@@ -215,8 +291,12 @@ Definition run_op (c : sval) : option sval :=
           if String.eqb op "variant" then
             let? own := dec_by_name n b in
             Some (SL [SL [SY "own"; own]; SL [SY "dgram"; sres (fun l => SL (map s_packet l)) (Unmarshal b)]])
+          else if String.eqb op "dec2" then let? b2 := as_B expected in dec2_obs n b b2
           else None
-      | [pk; SL ops] => if String.eqb op "hist" then let? p := p_packet pk in hist_obs p ops else None
+      | [pk; SL ops] =>
+          if String.eqb op "hist" then let? p := p_packet pk in hist_obs p ops
+          else if String.eqb op "dhist" then let? b := as_B pk in dhist_obs b ops
+          else None
       | _ => None
       end
   | _ => None
